@@ -310,10 +310,14 @@ def handle_confinement(fx):
     hosts = 0
     for f in ro.fns_in_scope(fx, crates=("libxcp",)):
         news = q.calls_to(f, NEW)
-        if not news:
+        # handles created here, and handles received as parameters (closures run on a handle, helper functions)
+        seeds = [t["dest"]["l"] for _, t in news]
+        if f.path not in (NEW, DROP) and not f.path.startswith("libxcp::operations::CopyHandle::"):
+            seeds += [l for l in range(1, f.argc + 1) if COPYHANDLE in f.locals[l]["ty"] and not f.locals[l]["ty"].startswith("&")]
+        if not seeds:
             continue
         hosts += 1
-        tainted, via = taint_from(f, [t["dest"]["l"] for _, t in news])
+        tainted, via = taint_from(f, seeds)
         bad = []
         for bi, t in f.calls():
             o = callee_orig(t)
@@ -343,8 +347,8 @@ def handle_confinement(fx):
                             f, {"core::result::Result::<T, E>::and_then", "core::result::Result::<T, E>::map"}))
                         if not to_pool and not inplace:
                             bad.append("closure %s owning a handle is not handed to the bounded pool" % cl)
-        obs.append(Ob("R-THREAD", mkkey("R-THREAD", f.path, NEW, 0, "handle-confined"), not bad, f.loc(), f.path,
-                      "handles created in %s stay in iteration-local values / pool jobs: %s" % (f.path.split("::")[-1], not bad),
+        obs.append(Ob("R-THREAD", mkkey("R-THREAD", f.path, "CopyHandle", 0, "handle-confined"), not bad, f.loc(), f.path,
+                      "handles held by %s stay in iteration-local values / pool jobs: %s" % (f.path.split("::")[-1], not bad),
                       dict(escapes=bad) if bad else None))
     # the same for the Arc clones made for block jobs
     f = fx.fn(PB_QFR)
